@@ -193,6 +193,36 @@ def run_handbuilt(ctx, renders):
                     acc.count('unsupported_off')
 
 
+def without_name_quotes(own):
+    """The library's own text with the back-quotes around names removed and those inside string literals kept (what the two
+    PostgreSQL names are handed).  Scanner over the own text: a literal runs from a quote to the next quote not preceded by a
+    backslash; a quoted name from a back-quote to the next back-quote."""
+    out, i, n = [], 0, len(own)
+    while i < n:
+        ch = own[i]
+        if ch == "'":
+            j = i + 1
+            while j < n and own[j] != "'":
+                j += 2 if own[j] == '\\' and j + 1 < n else 1
+            if j >= n:
+                out.append(own[i])          # no closing quote: not a literal
+                i += 1
+                continue
+            out.append(own[i:j + 1])
+            i = j + 1
+        elif ch == '`':
+            j = own.find('`', i + 1)
+            if j < 0:
+                i += 1
+                continue
+            out.append(own[i + 1:j])
+            i = j + 1
+        else:
+            out.append(ch)
+            i += 1
+    return ''.join(out)
+
+
 def run_shard(ctx):
     from mindsdb_sql import parse_sql
     from mindsdb_sql.render.sqlalchemy_render import SqlalchemyRender
@@ -265,7 +295,7 @@ def run_shard(ctx):
                             own = tree.copy().to_string()
                             got = r.get_string(tree.copy(), with_failback=True)
                             # (for the two PostgreSQL names the library removes the back-quotes from its own text: assumption below)
-                            if got != own and not (name in ('postgresql', 'postgres') and got == own.replace('`', '')):
+                            if got != own and not (name in ('postgresql', 'postgres') and got == without_name_quotes(own)):
                                 acc.fail({'kind': 'fallback-is-not-the-trees-own-sql', 'statement': type(tree).__name__},
                                          {'text': text[:300], 'render_dialect': name, 'fallback_result': got[:300], 'own_sql': own[:300]})
                         except Exception:
